@@ -54,7 +54,10 @@ def is_local_url_scheme(scheme: str) -> bool:
 
 
 def is_local_dir_url(url: str) -> bool:
-    url_parts = urlsplit(url)
+    try:
+        url_parts = urlsplit(url)
+    except ValueError:
+        return False
     return is_local_url_scheme(url_parts.scheme) and os.path.isdir(url_parts.path.lstrip(':'))
 
 
@@ -321,8 +324,11 @@ def evaluate__base_uri(self: XPathFunction, context: ta.ContextType = None) \
     elif item is None:
         return []
     elif isinstance(item, XPathNode):
-        uri = item.base_uri
-        return AnyURI(uri if uri is not None else '')
+        try:
+            uri = item.base_uri
+            return AnyURI(uri if uri is not None else '')
+        except ValueError as err:
+            raise self.error('FORG0002', err) from None
     else:
         raise self.error('XPTY0004', "context item is not a node")
 
